@@ -38,8 +38,9 @@ Print Assumptions available_use_accepted.
 (** Lending a value to a call (update_packed_value) makes it available again, with its kind. *)
 Theorem reassign_makes_available : forall ops s id k,
   wf_ops ops -> lrun ops st0 = Ok s -> kind_of (rev ops) id = Some k ->
-  exists s', lrun (ops ++ [LReassign id]) st0 = Ok s' /\ uses (rev (ops ++ [LReassign id])) id = 0
-             /\ kind_of (rev (ops ++ [LReassign id])) id = Some k.
+  forall k2, wf_kind k2 ->
+  exists s', lrun (ops ++ [LReassign id k2]) st0 = Ok s' /\ uses (rev (ops ++ [LReassign id k2])) id = 0
+             /\ kind_of (rev (ops ++ [LReassign id k2])) id = Some k.
 Proof. exact reassign_resets_lemma. Qed.
 Print Assumptions reassign_makes_available.
 
@@ -94,7 +95,8 @@ Print Assumptions struct_setattr_frozen.
 (** Owned inputs are unpacked frozen, borrowed ones are not, and the flag reaches every level. *)
 Theorem owned_inputs_frozen :
   input_frozen false = true /\ input_frozen true = false /\
-  (forall f, unpack_child_frozen f = f /\ unpack_struct_frozen f = f /\ unpack_list_frozen f = f).
+  (forall f, unpack_tuple_child_frozen f = f /\ unpack_struct_child_frozen f = f /\ unpack_list_child_frozen f = f /\
+             unpack_struct_frozen f = f /\ unpack_list_frozen f = f).
 Proof. repeat split; try reflexivity; destruct f; reflexivity. Qed.
 Print Assumptions owned_inputs_frozen.
 
@@ -102,14 +104,16 @@ Print Assumptions owned_inputs_frozen.
 Definition qubit_k := mkKind false false.
 Definition int_k := mkKind true true.
 Definition arr_int_k := mkKind false true.
-Example ex_accept : trace_leaf [qubit_k; int_k] [LUse 0; LReassign 0; LUse 1; LUse 1; LCreate qubit_k; LUse 3] [0] = Ok tt.
+Example ex_accept : trace_leaf [qubit_k; int_k] [LUse 0; LReassign 0 qubit_k; LUse 1; LUse 1; LCreate qubit_k; LUse 3] [0] = Ok tt.
 Proof. vm_compute. reflexivity. Qed.
 Example ex_reuse : trace_leaf [qubit_k] [LUse 0] [0] = Err (EAlreadyUsed 0).
 Proof. vm_compute. reflexivity. Qed.
 Example ex_leak : trace_leaf [qubit_k; arr_int_k] [LCreate qubit_k] [0] = Err (ELeak 2).
 Proof. vm_compute. reflexivity. Qed.
 Example ex_wf : wf_ops [LCreate qubit_k; LCreate int_k; LCreate arr_int_k; LUse 0].
-Proof. intros k [H|[H|[H|[H|[]]]]]; inversion H; subst; intro; (reflexivity || discriminate). Qed.
+Proof.
+  intros k [[H|[H|[H|[H|[]]]]]|[j [H|[H|[H|[H|[]]]]]]]; inversion H; subst; intro; (reflexivity || discriminate).
+Qed.
 
 (** tree layer (differentially validated only): sample verdicts of the executable model.
     0 accepted, 1 already used, 2 leaked, 3 mutation of an owned-derived value *)
